@@ -36,6 +36,11 @@ structure Cfg where
   perArena : Nat
   base : Nat
   junk : Nat → Nat → Nat := fun _ _ => 0
+  /-- which `rs_calloc` is modelled: `false` = the pinned code (`tot = nmemb * size` in `size_t`, no
+  overflow check); `true` = the code after `repo_patches/rs_calloc_overflow.diff`
+  (`__builtin_mul_overflow` → `NULL` + `ENOMEM`).  The harness detects the variant of the tree under
+  test by behaviour and passes it on the `cfg` line. -/
+  callocChecked : Bool := false
 
 /-- The code needs `1 ≤ B_BLOCK_EXP ≤ B_TOTAL_EXP`: with `B = 0` a free leaf would have
 `longest = 0`, the encoding of "allocated". -/
@@ -273,8 +278,11 @@ def MM.peek (s : MM) (aid o len : Nat) : List Nat :=
   | some a => readAt a.mem o len
   | none => []
 
-/-- `rs_calloc(nmemb, size)`: the product is computed in `size_t` (mod `2^64`) -/
+/-- `rs_calloc(nmemb, size)`.  Patched variant (`c.callocChecked`): if `nmemb * size` does not fit in
+`size_t`, `errno = ENOMEM; return NULL` before anything else.  Otherwise (and always in the pinned
+variant) the product is computed in `size_t`, i.e. mod `2^64`. -/
 def rsCalloc (c : Cfg) (s : MM) (nmemb size ins : Nat) : MM × Ret :=
+  if c.callocChecked = true ∧ 2 ^ 64 ≤ nmemb * size then (s, .enomem) else
   let tot := (nmemb * size) % 2 ^ 64
   match rsMalloc c s tot ins with
   | (s1, .ptr p) => (s1.poke p.aid p.off (List.replicate tot 0), .ptr p)
